@@ -28,13 +28,23 @@ package reorgdetector
 //@   ensures[a-known-subscriber-is-told-the-block] has(rd.subscriptions, id) ==> nsent(rd.subscriptions[id].ReorgedBlock) == old(nsent(rd.subscriptions[id].ReorgedBlock)) + 1 && sentAt(rd.subscriptions[id].ReorgedBlock, old(nsent(rd.subscriptions[id].ReorgedBlock))) == startingBlock.Num
 //@   ensures[and-has-acknowledged-the-rewind] has(rd.subscriptions, id) ==> nrecv(rd.subscriptions[id].ReorgProcessed) == old(nrecv(rd.subscriptions[id].ReorgProcessed)) + 1
 
+// (proved: the statement's meaning - which rows a DELETE with these three arguments removes - is assumed at the Exec,
+// A5; that the bounds and the subscriber given are the ones passed, in that order, through the detector's own
+// connection, is checked)
+//@ extern (*database/sql.DB).Exec@reorgdetector.(*ReorgDetector).removeTrackedBlockRange (d, query, args)
+//@   requires len(args) == 3 && typeIs(args[0], uint64) && typeIs(args[1], uint64) && typeIs(args[2], string)
+//@   modifies lastDropFrom, lastDropTo, dropCalls
+//@   ensures dropCalls == old(dropCalls) + 1 && lastDropFrom == unbox(args[0], uint64) && lastDropTo == unbox(args[1], uint64)
 //@ func (rd *ReorgDetector) removeTrackedBlockRange (rd, id, fromBlock, toBlock)
 //@   props C06
-//@   trusted
 //@   sqltext "DELETE FROM tracked_block WHERE num >= $1 AND num <= $2 AND subscriber_id = $3;"
 //@   requires[range-dropped-only-after-the-subscriber-rewound] fromBlock == toBlock || (notifyCalls > 0 && lastNotified == fromBlock)
+//@   requires rd != nil
 //@   modifies lastDropFrom, lastDropTo, dropCalls
+//@   nocalls
+//@   allowcalls Exec
 //@   ensures dropCalls == old(dropCalls) + 1 && lastDropFrom == fromBlock && lastDropTo == toBlock
+//@   assert call:Exec arg0 == rd.db && unbox(arg2[2], string) == id
 
 //@ func (rd *ReorgDetector) insertReorgEvent (rd, event)
 //@   trusted
